@@ -190,6 +190,14 @@ theorem keyStream_only_first_72_bytes (p q : Bytes) (h : p.take 72 = q.take 72)
     (hp : 72 ≤ p.length) (hq : 72 ≤ q.length) : keyStream p = keyStream q :=
   keyStream_prefix p q h hp hq
 
+/-- FULL STATEMENT of the clause "fails with any other passphrase", for the model (NOT provable:
+    refuted below) -/
+def wrong_passphrase_statement (C : Crypto) : Prop :=
+  ∀ keyBytes pass pass' salt nonce saltFirst text,
+    C.keyFromBytes keyBytes = some keyBytes → salt.length = 16 → nonce.length = nonceLen →
+    pass' ≠ pass → encryptArmorPrivKey C keyBytes pass salt nonce saltFirst = .ok text →
+    ∃ e, unarmorDecryptPrivKey C text pass' = .error e
+
 /-- COUNTEREXAMPLE to "fails with any other passphrase" (known finding `pass-trunc72`): for every
     cipher/KDF satisfying the round-trip laws, a key encrypted under "a"*72+"XXXX" is decrypted by
     "a"*72+"YYYYYYY".  (`keyStream_cyclic` is the second witness: "a" vs "a\x00a".) -/
@@ -245,6 +253,17 @@ theorem unencrypted_armor_refuses_passphrase (C : Crypto) (keyBytes pass' : Byte
   unfold unarmorDecryptPrivKey armorPrivateKey
   rw [decode_encode _ _ _ armorOK_plain]
   simp [hp, hdrGet, sBcrypt]
+
+/-- FULL STATEMENT of the clause "fails with any modification of the ciphertext", for the model:
+    whenever the decoded salt or ciphertext of a text differs from the original, decryption under
+    the original passphrase fails.  NOT provable for any real cipher/KDF (forgeries and KDF
+    collisions exist, they are only infeasible to find): what is missing from
+    `tampered_armor_rejected_partial` is exactly the absence of those two disjuncts. -/
+def tampered_armor_rejected_statement (C : Crypto) (salt nonce plain pass : Bytes) : Prop :=
+  ∀ text ty' enc' (hdr' : List (Bytes × Bytes)),
+    decodeArmor text = .ok (ty', hdr', enc') → ¬ (hdr'.length = 0 ∧ pass.isEmpty = true) →
+    ¬ (hexDecode (hdrGet hdr' sSalt) = some salt ∧ enc' = nonce ++ C.sealBox (C.kdf salt pass) nonce plain) →
+    ∃ e, unarmorDecryptPrivKey C text pass = .error e
 
 /-- "fails with any modification of the ciphertext", in the only form that can be a theorem: for
     ANY armor text (however it was obtained) and any passphrase, if decryption through the KDF path
